@@ -26,11 +26,63 @@ CHECKS["C01"] = CodecCheck(
     quick_n=900, thorough_n=30000, extra=c01_extra, assumptions=DOMAIN,
     nontrivial=lambda r: r["kind"] == "value" or r["obs"]["res"]["status"] == "ok")
 
+def special_values_family(rnd, first_id, n):
+    """Structures of scalar members whose input is put together from the *remarkable* encodings of each member type: floats
+    +0 / -0 / +-inf / smallest subnormal / largest, integers 0 / -1 / min / max, empty and full strings.  Values that are falsy,
+    compare equal to another value (-0.0 == 0.0) or sit at a boundary are where a writer that "simplifies" goes wrong."""
+    import struct as st
+
+    from harness import absyn as A
+
+    out = []
+    fl = {"float16": "e", "float": "f", "double": "d"}
+    specials = {"e": [0.0, -0.0, float("inf"), float("-inf"), 5.960464477539063e-08, 65504.0, 1.0, -1.5],
+                "f": [0.0, -0.0, float("inf"), float("-inf"), 1.401298464324817e-45, 3.4028234663852886e+38, 1.0, -1.5],
+                "d": [0.0, -0.0, float("inf"), float("-inf"), 5e-324, 1.7976931348623157e+308, 1.0, -1.5]}
+    while len(out) < n:
+        mode = {"endian": rnd.choice("<>"), "align": False, "ptr": 8}
+        e = mode["endian"]
+        fields, data = [], b""
+        for j in range(rnd.randrange(1, 6)):
+            kind = rnd.choice(["float16", "float", "double", "float", "double", "int", "char"])
+            cnt = rnd.choice([0, 0, 0, 2])
+            if kind in fl:
+                ty = A.t_float(kind)
+                enc = lambda: st.pack(e + fl[kind], rnd.choice(specials[fl[kind]]))      # noqa: E731
+            elif kind == "int":
+                name = rnd.choice(["int8", "uint16", "int32", "int64", "uint64"])
+                ty = A.t_int(name)
+                size = ty["size"]
+                enc = lambda: rnd.choice([bytes(size), b"\xff" * size, b"\x80" + bytes(size - 1), bytes(size - 1) + b"\x80", b"\x7f" + b"\xff" * (size - 1)])  # noqa: E731
+            else:
+                ty = A.t_char()
+                enc = lambda: rnd.choice([b"\x00", b" ", b"\xff", b"A"])      # noqa: E731
+            if cnt:
+                ty = A.t_arr(ty, A.L_fixed(cnt))
+                data += b"".join(enc() for _ in range(cnt))
+            else:
+                data += enc()
+            fields.append(A.field(f"f{j}", ty))
+        if rnd.random() < 0.4:      # the same members once more inside a nested structure
+            inner = A.t_struct("SVI", [dict(f) for f in fields])
+            fields = fields + [A.field("n", inner)]
+            data = data + data
+        t = A.t_struct("SV", fields)
+        scn = {"type": t, "mode": mode, "consts": {}, "defs": A.render(t, {})}
+        out.append(codec.parse_record(first_id + len(out), scn, data + bytes(rnd.randrange(0, 3)), 0, rnd.random() < 0.5, both=True))
+    return out
+
+
+def c02_extra(rep, rnd, first_id):
+    return special_values_family(rnd, first_id, 2500 if rep.tier == "thorough" else 150)
+
+
 CHECKS["C02"] = CodecCheck(
     "C02", {"fidelity", "load"},
-    rule=RAND_RULE + "non-trivial = parse succeeded, so that dumps() was compared bit for bit with the consumed input under the "
-         "DataMask of the specification",
-    quick_n=1500, thorough_n=40000, assumptions=DOMAIN)
+    rule=RAND_RULE + "plus structures fed with the remarkable encodings of their members (floats +-0, +-inf, subnormal, largest; "
+         "integer boundaries; empty strings); non-trivial = parse succeeded, so that dumps() was compared bit for bit with the "
+         "consumed input under the DataMask of the specification",
+    quick_n=1500, thorough_n=40000, extra=c02_extra, assumptions=DOMAIN)
 
 def c03_extra(rep, rnd, first_id):
     """Both readers on TRUNCATED inputs (neither may return a value the other contradicts)."""
@@ -51,6 +103,7 @@ def c03_extra(rep, rnd, first_id):
         for cut in sorted(cuts):
             data = bytes(rnd.randrange(256) for _ in range(start)) + body[:cut]
             out.append(codec.parse_record(first_id + len(out), scn, data, start, True, both=True))
+    out += anon_context_family(rnd, first_id + len(out), 300 if rep.tier == "thorough" else 50)
     return out
 
 
@@ -169,6 +222,40 @@ CHECKS["C06"] = CodecCheck(
 
 
 # ---------------------------------------------------------------------------------------------------- C07
+def anon_context_family(rnd, first_id, n):
+    """The members of anonymous structure / union members are members of the enclosing structure: lengths after them may name
+    them - also those of an anonymous member that is not the most recent one, and of anonymous members nested in them."""
+    from harness import absyn as A
+
+    out = []
+    for _ in range(n):
+        mode = codec.gen_mode(rnd)
+        u8 = A.t_int("uint8")
+        inner2 = A.t_struct("", [A.field("m", u8), A.field("w", A.t_int("uint16"))], union=rnd.random() < 0.3)
+        inner = A.t_struct("", [A.field("n", u8), A.field("", inner2, anon=True)] if rnd.random() < 0.6 else [A.field("n", u8), A.field("m", u8)],
+                           union=rnd.random() < 0.2)
+        second = A.t_struct("", [A.field("p", u8), A.field("q", u8)], union=rnd.random() < 0.3)
+        elem = rnd.choice([u8, A.t_int("uint16"), A.t_char(), A.t_int("int24")])
+        lens = [A.e_bin("&", A.e_id("n"), A.e_lit(3)), A.e_bin("+", A.e_bin("&", A.e_id("m"), A.e_lit(1)), A.e_bin("&", A.e_id("k"), A.e_lit(1))),
+                A.e_bin("&", A.e_bin("*", A.e_id("n"), A.e_id("m")), A.e_lit(3))]
+        two = rnd.random() < 0.5
+        if two:
+            lens.append(A.e_bin("&", A.e_bin("+", A.e_id("n"), A.e_id("q")), A.e_lit(3)))
+            lens.append(A.e_bin("&", A.e_id("p"), A.e_lit(3)))
+        fields = [A.field("k", u8), A.field("", inner, anon=True)] + ([A.field("", second, anon=True)] if two else []) + \
+                 [A.field("d", A.t_arr(elem, A.L_expr(rnd.choice(lens)))), A.field("e", A.t_arr(u8, A.L_expr(rnd.choice(lens)))), A.field("t", u8)]
+        if rnd.random() < 0.3:
+            fields = fields[1:]
+            lens = [l for l in lens if not A.expr_refs(l, {"k"})]
+            fields[-3] = A.field("d", A.t_arr(elem, A.L_expr(rnd.choice(lens))))
+            fields[-2] = A.field("e", A.t_arr(u8, A.L_expr(rnd.choice(lens))))
+        t = A.t_struct("AN", fields)
+        scn = {"type": t, "mode": mode, "consts": {}, "defs": A.render(t, {})}
+        start = codec.start_for(rnd, scn)
+        out.append(codec.parse_record(first_id + len(out), scn, codec.gen_input(rnd, start, maxlen=40), start, rnd.random() < 0.5, both=True))
+    return out
+
+
 def c07_extra(rep, rnd, first_id):
     """Wrong element count in a fixed-size non-character array must be refused (value scenarios)."""
     from harness import absyn as A
@@ -207,27 +294,7 @@ def c07_extra(rep, rnd, first_id):
         scn = {"type": t, "mode": mode, "consts": consts, "defs": A.render(t, consts)}
         start = codec.start_for(rnd, scn)
         out.append(codec.parse_record(first_id + len(out), scn, codec.gen_input(rnd, start, maxlen=40), start, rnd.random() < 0.5, both=True))
-    # the members of an anonymous structure / union member are members of the enclosing structure: lengths after it may name them
-    for _ in range(400 if rep.tier == "thorough" else 60):
-        mode = codec.gen_mode(rnd)
-        u8 = A.t_int("uint8")
-        inner2 = A.t_struct("", [A.field("m", u8), A.field("w", A.t_int("uint16"))], union=rnd.random() < 0.3)
-        inner = A.t_struct("", [A.field("n", u8), A.field("", inner2, anon=True)] if rnd.random() < 0.6 else [A.field("n", u8), A.field("m", u8)],
-                           union=rnd.random() < 0.2)
-        elem = rnd.choice([u8, A.t_int("uint16"), A.t_char(), A.t_int("int24")])
-        lens = [A.e_bin("&", A.e_id("n"), A.e_lit(3)), A.e_bin("+", A.e_bin("&", A.e_id("m"), A.e_lit(1)), A.e_bin("&", A.e_id("k"), A.e_lit(1))),
-                A.e_bin("&", A.e_bin("*", A.e_id("n"), A.e_id("m")), A.e_lit(3))]
-        fields = [A.field("k", u8), A.field("", inner, anon=True), A.field("d", A.t_arr(elem, A.L_expr(rnd.choice(lens)))),
-                  A.field("e", A.t_arr(u8, A.L_expr(rnd.choice(lens)))), A.field("t", u8)]
-        if rnd.random() < 0.3:
-            fields = fields[1:]
-            lens = lens[:1] + lens[2:]
-            fields[1] = A.field("d", A.t_arr(elem, A.L_expr(rnd.choice(lens))))
-            fields[2] = A.field("e", A.t_arr(u8, A.L_expr(rnd.choice(lens))))
-        t = A.t_struct("AN", fields)
-        scn = {"type": t, "mode": mode, "consts": {}, "defs": A.render(t, {})}
-        start = codec.start_for(rnd, scn)
-        out.append(codec.parse_record(first_id + len(out), scn, codec.gen_input(rnd, start, maxlen=40), start, rnd.random() < 0.5, both=True))
+    out += anon_context_family(rnd, first_id + len(out), 400 if rep.tier == "thorough" else 60)
     return out
 
 
